@@ -76,11 +76,27 @@ class Check:
     # ------------------------------------------------------------------ generation
     def gen(self, rng, tier, index):
         r = rng.random()
-        if r < 0.40:
+        if r < 0.38:
             return self.gen_a(rng, tier)
-        if r < 0.75:
+        if r < 0.70:
             return self.gen_b(rng, tier)
-        return self.gen_c(rng, tier)
+        if r < 0.92:
+            return self.gen_c(rng, tier)
+        return self.gen_d(rng, tier)
+
+    def gen_d(self, rng, tier):
+        """Alignment sweep: which write() finds std's 1 KiB stdout buffer full depends on the byte alignment of the
+        stream, not only on the close offset. One leading entry's name grows byte by byte, shifting every later piece."""
+        top = rng.choice(gen.SAFE_ROOTS)
+        nodes = [{"path": top, "type": "dir"}]
+        n = rng.randint(60, 110)
+        for i in range(n):
+            nodes.append({"path": "%s/f%03d%s" % (top, i, "".join(rng.choice("abcxyz") for _ in range(rng.randint(0, 8)))), "type": "file", "content": "x" * rng.choice([0, 5, 10, 100])})
+        nodes.append({"path": top + "/0", "type": "file", "content": ""})
+        world = {"nodes": nodes}
+        plan = {"entropy": rng.getrandbits(48), "clock": [1700000000 * 10 ** 9, 0], "order": {top: ["0"]}}
+        return {"sub": "D", "world": world, "roots": [{"top": top, "kind": "rel", "mind": 0, "maxd": 0, "mode": "bfs"}], "plan": plan, "format": rng.choice(FORMATS),
+                "shape": rng.choice(["streamed", "ordered"]), "cols": rng.choice([["path"], ["path", "size"], ["name", "path"]]), "shifts": 44}
 
     def gen_roots(self, rng, world, tops):
         roots = []
@@ -214,6 +230,11 @@ class Check:
         return c
 
     def shrinks(self, case):
+        if case["sub"] == "D" and not case.get("only_k"):
+            for k in range(1, case.get("shifts", 44) + 1):
+                c = copy.deepcopy(case)
+                c["only_k"] = k
+                yield c
         for i in range(len(case.get("faults", []))):
             c = copy.deepcopy(case)
             del c["faults"][i]
@@ -291,7 +312,57 @@ class Check:
 
     # ------------------------------------------------------------------ evaluation
     def evaluate(self, case, ctx):
-        return {"A": self.eval_a, "B": self.eval_b, "C": self.eval_c}[case["sub"]](case, ctx)
+        return {"A": self.eval_a, "B": self.eval_b, "C": self.eval_c, "D": self.eval_d}[case["sub"]](case, ctx)
+
+    def eval_d(self, case, ctx):
+        import os
+        world = copy.deepcopy(case["world"])
+        viols = []
+        top = case["roots"][0]["top"]
+        pad_i = next((i for i, n in enumerate(world["nodes"]) if n["path"] == top + "/0"), None)
+        if pad_i is None:
+            raise CaseInvalid("pad entry missing")
+        fmt, shape, cols = case["format"], case["shape"], case["cols"]
+        ks = [case["only_k"]] if case.get("only_k") else list(range(1, case.get("shifts", 44) + 1))
+        with ctx.sandbox(world) as sb:
+            roots = self.roots_sp(case, sb.root)
+            fc = self.from_clause(roots)
+            q = "select " + ", ".join(cols) + fc + (" order by path" if shape == "ordered" else "") + " into " + fmt
+            cur = "0"
+            for k in ks:
+                new = "0" * k
+                if new != cur:
+                    os.rename(os.path.join(sb.root, top, cur), os.path.join(sb.root, top, new))
+                    cur = new
+                world["nodes"][pad_i]["path"] = top + "/" + new
+                sb.world = world
+                plan = copy.deepcopy(case["plan"])
+                plan["order"] = {top: [new]}
+                plan["budget"] = 5000 + 40 * len(world["nodes"])
+                r0 = sb.run([q], plan=plan)
+                if crashy(r0) or r0.status != 0:
+                    viols.append(Violation(PROP, "C17.C.control", ["C17.C", "control", fmt, shape], {"query": q, "outcome": r0.summary()}))
+                    return viols
+                S = r0.stdout
+                for W in (0, 1000, 1024, 2048, 3072):
+                    if W > len(S):
+                        continue
+                    p = copy.deepcopy(plan)
+                    p["out_epipe"] = W
+                    r = sb.run([q], plan=p)
+                    ctx.metric("D_offsets")
+                    bad = crashy(r)
+                    if bad:
+                        viols.append(Violation(PROP, "C17.C.crash", ["C17.C", "abnormal_end:" + bad, fmt, shape],
+                                               {"query": q, "close_after": W, "stream_len": len(S), "leading_name_len": k, "only_k": k, "outcome": r.summary()}))
+                        return viols
+                    if not (len(r.stdout) <= W and S.startswith(r.stdout)):
+                        viols.append(Violation(PROP, "C17.C.prefix", ["C17.C", "delivered_not_prefix", fmt, shape], {"query": q, "close_after": W, "leading_name_len": k, "only_k": k}))
+                        return viols
+            ctx.metric("D_alignment_cases")
+            if len(ctx.samples) < 2:
+                ctx.samples.append({"argv": [q], "alignment_shifts": len(ks), "close_offsets_per_shift": [0, 1000, 1024, 2048, 3072]})
+        return viols
 
     def eval_a(self, case, ctx):
         world = case["world"]
@@ -708,8 +779,8 @@ class Check:
         return viols
 
     def exhaustive_note(self, metrics):
-        return ("C: every close offset W in 0..L for %d sampled (world, query, format, result path) cases (%d offsets in total); %d larger cases sampled around 1 KiB multiples" %
-                (metrics.get("C_exhaustive_offset_cases", 0), metrics.get("C_offsets", 0), metrics.get("C_sampled_offsets_cases", 0)))
+        return ("D: %d alignment-sweep cases (44 byte shifts x 5 close offsets, %d executions); C: every close offset W in 0..L for %d sampled (world, query, format, result path) cases (%d offsets in total); %d larger cases sampled around 1 KiB multiples" %
+                (metrics.get("D_alignment_cases", 0), metrics.get("D_offsets", 0), metrics.get("C_exhaustive_offset_cases", 0), metrics.get("C_offsets", 0), metrics.get("C_sampled_offsets_cases", 0)))
 
 
 CHECK = Check()
